@@ -62,7 +62,14 @@ func TestVerif_Balancer(t *testing.T) {
 		lc, _ := f.Create(DefaultBalancerLeastConnections)
 		eps := make([]*domain.Endpoint, len(items))
 		for i, it := range items {
+			// URL spellings seen in real configs: bare, trailing slash, nested base path
 			u := fmt.Sprintf("http://10.0.%d.%d:11434", sn%250, i+1)
+			switch (sn + i) % 3 {
+			case 1:
+				u += "/"
+			case 2:
+				u += "/engines/llama.cpp/"
+			}
 			eps[i] = &domain.Endpoint{Name: fmt.Sprintf("e%d", i+1), URLString: u, Status: domain.EndpointStatus(it.St), Priority: it.Pr}
 		}
 		for i, n := range g {
